@@ -991,6 +991,18 @@ impl<'a> Fx<'a> {
                 }
             }
         }
+        // a method chain that starts with `x.next()` on a mutable iterator: `x.next().and_then(..).map_or_else(..)`
+        if let Some((var, rebuilt)) = chain_rooted_at_next(e) {
+            let x = ident_name(&var);
+            let t = self.fresh("it");
+            pre.push(Line { ind, text: format!("let {} := Rust.next {}", t, x) });
+            pre.push(Line { ind, text: format!("{} := {}.2", x, t) });
+            pre.push(Line { ind, text: format!("let next_value__ := {}.1", t) });
+            if expr_needs_do_except_root(&rebuilt) {
+                return Err(format!("a value with control flow or mutation inside: `{}`", short(e)));
+            }
+            return self.expr(&rebuilt);
+        }
         if expr_needs_do(e) {
             return Err(format!("a value with control flow or mutation inside: `{}`", short(e)));
         }
@@ -1676,6 +1688,10 @@ impl<'a> Fx<'a> {
             Expr::Call(c) => self.call(c),
             Expr::MethodCall(m) => self.method_call(m),
             Expr::Macro(m) => self.macro_expr(&m.mac),
+            Expr::Path(p) if p.path.segments.len() == 2 && p.path.segments[0].ident == "Vec" && p.path.segments[1].ident == "new" => {
+                // `Vec::new` handed over as a function (`map_or_else(Vec::new, ..)`)
+                Ok("(fun (_ : Unit) => [])".into())
+            }
             Expr::Closure(c) => {
                 let st = c.span().start();
                 if let Some(r) = self.closure_refs.get(&(st.line, st.column)) {
@@ -1781,6 +1797,10 @@ impl<'a> Fx<'a> {
             if !c.is_empty() {
                 return Ok(c);
             }
+        }
+        // `Vec::new` handed over as a function (`map_or_else(Vec::new, ..)`)
+        if segs.len() == 2 && segs[0] == "Vec" && segs[1] == "new" {
+            return Ok("(fun (_ : Unit) => [])".into());
         }
         // a function used as a value (`Some`, `Identifier::Numeric`, `Extras::Release`)
         Err(format!("unsupported path `{}`", segs.join("::")))
@@ -2013,6 +2033,7 @@ impl<'a> Fx<'a> {
             ("as_bytes", 0) => format!("(Rust.as_bytes {})", recv),
             ("rev", 0) => format!("(Rust.rev {})", recv),
             ("position", 1) => format!("(Rust.position {} {})", recv, a),
+            ("rposition", 1) => format!("(Rust.rposition {} {})", recv, a),
             ("lines", 0) => format!("(Rust.lines {})", recv),
             ("trim_end", 0) => format!("(Rust.trim_end {})", recv),
             ("next", 0) => format!("(Rust.iter_first {})", recv),
@@ -2158,6 +2179,38 @@ fn fmt_result(sig: &Signature) -> bool {
         }
         _ => false,
     }
+}
+
+/// `x.next().m1(..).m2(..)` (at least one method after `next()`): the variable and the chain with `x.next()` replaced
+/// by the identifier `next_value__`
+fn chain_rooted_at_next(e: &Expr) -> Option<(String, Expr)> {
+    fn go(e: &Expr) -> Option<(String, Expr)> {
+        if let Expr::MethodCall(m) = e {
+            if m.method == "next" && m.args.is_empty() {
+                if let Expr::Path(p) = &*m.receiver {
+                    if let Some(id) = p.path.get_ident() {
+                        let repl: Expr = syn::parse_str("next_value__").ok()?;
+                        return Some((id.to_string(), repl));
+                    }
+                }
+                return None;
+            }
+            let (v, inner) = go(&m.receiver)?;
+            let mut m2 = m.clone();
+            m2.receiver = Box::new(inner);
+            return Some((v, Expr::MethodCall(m2)));
+        }
+        None
+    }
+    match e {
+        Expr::MethodCall(m) if !(m.method == "next" && m.args.is_empty()) => go(e),
+        _ => None,
+    }
+}
+
+/// after the root `x.next()` has been taken out, is the rest a pure term?
+fn expr_needs_do_except_root(e: &Expr) -> bool {
+    expr_needs_do(e)
 }
 
 /// `p.parse_next(&mut x)` with `x` a local variable
